@@ -4,7 +4,7 @@ LEVEL = "proof"
 
 def check(rep, tier):
     from contracts import core_rules, tracer_primitive, diffops
-    core_rules.run(rep, tier)
-    tracer_primitive.run(rep, tier, only=("W4", "W1", "W2", "W3", "W7"))
-    diffops.run_ops(rep, tier)
-    diffops.run_nary(rep, tier)
+    rep.run(core_rules.run, rep, tier)
+    rep.run(tracer_primitive.run, rep, tier, only=("W4", "W1", "W2", "W3", "W7"))
+    rep.run(diffops.run_ops, rep, tier)
+    rep.run(diffops.run_nary, rep, tier)
